@@ -1,16 +1,18 @@
 package mon
 
 import (
+	"fmt"
 	"math/rand"
 
 	"verif/cfg"
 	"verif/gen"
 	"verif/probe"
+	"verif/ref"
 )
 
 func init() {
 	Register("C04", "exploration", func(c *Ctx) error {
-		c.Rule = "seeded tag/decorator constellations: 1-6 services, 1-4 tags, priorities from {-2^31,-5,-1,0,0,1,1,5,2^31-1} with forced ties, 1-5 decorators (wrapping, annotating, fallible) with every argument form incl. !tagged and $gontainer, spread over 1, 2 or 4 input files; executed and compared with the reference container (tag order = priority desc then name asc; decorators in declaration/file order after the service's own calls; payload tag/service id/current object). distinct = distinct input files; non-trivial = at least one tagged service and (a decorator on a carried tag or a !tagged argument) and >=4 judged operations"
+		c.Rule = "seeded tag/decorator constellations: 1-6 services, 1-4 tags, priorities from {-2^31,-5,-1,0,0,1,1,5,2^31-1} with forced ties, 1-5 decorators (wrapping, annotating, fallible) with every argument form incl. !tagged and $gontainer, spread over 1, 2 or 4 input files; services registered at run time under the tags of the declared decorators are fetched too; executed and compared with the reference container (tag order = priority desc then name asc; decorators in declaration/file order after the service's own calls; payload tag/service id/current object). distinct = distinct input files; non-trivial = at least one tagged service and (a decorator on a carried tag or a !tagged argument) and >=4 judged operations"
 		c.Assumptions = []string{"reference container engine/ref", "fixture decorators record their payload faithfully", "split files merge back to the single configuration by the documented rules (C09 checks this separately)"}
 		n := c.Pick(300, 16000)
 		lab, err := probe.NewLab(c.W)
@@ -24,7 +26,36 @@ func init() {
 			o.TagBias = true
 			o.Scopes = i%2 == 0
 			conf := gen.Behaviour(r, o)
-			u := &probe.Unit{ID: idOf(i), Cfg: conf, Files: gen.Split(r, conf, i%4), Ops: StdOps(conf, r, i%4 == 0)}
+			ops := StdOps(conf, r, i%4 == 0)
+			// services registered at run time (OverrideService) under the tags of the declared decorators - also tags no declared
+			// service carries: decorators and !tagged apply to whatever carries the tag
+			seenTag := map[string]bool{}
+			for di, d := range conf.Decorators {
+				if d.Tag == "*" || seenTag[d.Tag] || di > 3 {
+					continue
+				}
+				// no new cycle: the decorators of this tag must not themselves depend on services
+				dep := false
+				for _, d2 := range conf.Decorators {
+					if d2.Tag != d.Tag {
+						continue
+					}
+					for _, a := range d2.Args {
+						if k := ref.Classify(a).Kind; k == ref.ArgService || k == ref.ArgTagged {
+							dep = true
+						}
+					}
+				}
+				if dep {
+					continue
+				}
+				seenTag[d.Tag] = true
+				name := fmt.Sprintf("rt%d", di)
+				ops = append(ops, probe.Op{Op: "overridesvc", Name: name, Ctor: []string{"fixt/pa.New", "fixt/pb.New"}[di%2], Deps: []probe.DepSpec{{Dep: "value", T: "string", V: name}},
+					Tags: []probe.TagSpec{{Name: d.Tag, Prio: []int{0, 7, -3}[di%3]}}, Scope: []string{"", "shared", "non_shared"}[(i+di)%3]},
+					probe.Op{Op: "get", Name: name}, probe.Op{Op: "tagged", Name: d.Tag})
+			}
+			u := &probe.Unit{ID: idOf(i), Cfg: conf, Files: gen.Split(r, conf, i%4), Ops: ops}
 			units = append(units, u)
 		}
 		return behaviourUnits(c, lab, units, func(conf *cfg.Config) bool {
